@@ -63,6 +63,8 @@ def gram_passes(pid, tier):
             P.append(('NT2 T2 R=5..6 with rules of length <=1 (W<=4), strings<=4', base + ['--nt', '2', '--t', '2', '--err', '0', '--minR', '5', '--maxR', '6', '--maxL', '1', '--maxlen', '4']))
         if pid in ('C01', 'C11', 'C12', 'C02', 'C09'):
             P.append(('NT2 T3 R<=3 W<=5, strings<=%d' % (3 if q else 4), base + ['--nt', '2', '--t', '3', '--err', '0', '--maxR', '3', '--maxlen', '3' if q else '4']))
+        if pid == 'C12':
+            P.append(('error-rule frames NT2 T2 R<=3 and NT2 T3 R<=2: construction with default limits (the error symbol is a lookahead too)', base + ['--nt', '2', '--err', '1', '--maxR', '3', '--maxlen', '0']))
         if pid == 'C06':
             P.append(('error-rule frames NT2 T2 R<=2 through the checked buffer (recovery paths)', base + ['--nt', '2', '--t', '2', '--err', '1', '--maxR', '2', '--maxlen', '4']))
         if pid == 'C11':
@@ -315,6 +317,8 @@ def rx_passes(pid, tier):
         if not q: P.append(('ordered term sets of size 3 from the 12-spec pool x inputs<=4', ['--mode', 'c04', '--setsize', '3', '--pool', '0', '--maxlen', '4']))
         P.append(('ordered term sets of size 4..6 from a pool of %d mutually overlapping term specs (six-slot list grammar: more terms end in one automaton state than it has slots for) x inputs<=%d over {a,b,c,space}' % (8 if q else 10, 3 if q else 4),
                   ['--mode', 'c04w', '--setsize', '6', '--pool', '0' if q else '1', '--maxlen', '3' if q else '4']))
+        P.append(('ordered sets of 4..6 keyword-like string terms sharing long prefixes (if iff in int inte integer interface i) x inputs<=%d over {i,f,n,t,space} + 600 keyword concatenations' % (3 if q else 5),
+                  ['--mode', 'c04w', '--setsize', '6', '--pool', '2', '--maxlen', '3' if q else '5']))
         return P
     if pid == 'C10':
         return [('5 term sets (single-char, multi-char, multi-line lexemes, over-reading lexer) x 2 grammars (token list; statements with an error rule) x inputs<=%d over {x,q,;,space,\\t,\\r,\\n,0x80} x 3 whitespace option combinations' % (5 if q else 7),
@@ -452,12 +456,14 @@ PROG_SPECS = {
  'C13': lambda q: [dict(name='c13', src='c13_context.cpp', args=[4 if q else 9], label='16 >=/>>= assignments x 10 call forms (every context_parse/parse overload) x inputs<=%d over {a,b,foreign}; second grammar (arities 0/1/3/5, typed term, error rule) in 10 assignments x 5 call forms incl. verbose x inputs<=%d' % (4 if q else 9, 6 if q else 7), compilers=['g++'] if q else ['g++', 'clang++'])],
  'C14': lambda q: [dict(name='c14', src='c14_values.cpp', args=[4 if q else 8], label='instrumented copyable value type, inputs<=%d over 7 bytes' % (4 if q else 8), compilers=['g++'] if q else ['g++', 'clang++']),
                    dict(name='c14n', src='c14_values.cpp', args=[4 if q else 7], flags=['-DMOVE_NOT_NOEXCEPT'], label='copyable value type whose move constructor is not noexcept, inputs<=%d' % (4 if q else 7), compilers=['g++']),
+                   dict(name='c14c', src='c14_values.cpp', args=[4 if q else 7], flags=['-DCONTEXTUAL'], label='the same grammar with every functor attached with >>= and parsed through context_parse, inputs<=%d' % (4 if q else 7), compilers=['g++']),
+                   dict(name='c14cm', src='c14_values.cpp', args=[3 if q else 6], flags=['-DCONTEXTUAL', '-DMOVE_ONLY'], label='contextual functors with a move-only value type, inputs<=%d' % (3 if q else 6), compilers=['g++', 'clang++']),
                    dict(name='c14m', src='c14_values.cpp', args=[3 if q else 7], flags=['-DMOVE_ONLY'], label='move-only value type (compile probe + run), inputs<=%d' % (3 if q else 7), compilers=['g++', 'clang++'])],
 }
 PROG_RULE = {
  'C19': 'Complete enumeration (the space is finite): _e1.._e9 x arity N..9; construct<T,I> x I<=arity<=9; push_back<C,A> and emplace_back<C,A> x all 72 ordered position pairs x every arity max(C,A)..9; val / create x arity 0..9; value categories lvalue, const lvalue, rvalue, move-only rvalue. Every other argument is a Poison object without copy, move or conversions (any use fails to compile); results are checked by type (static_assert), by address identity and by the unchanged data() pointer of the returned container. Compiled and run with g++ and clang++.',
  'C13': 'One 4-rule grammar in all 16 assignments of >= / >>= (16 parser instantiations) x call forms covering every overload of context_parse and parse {non-const lvalue, const lvalue, prvalue, moved lvalue of a move-only type; with stream; with options+stream; parse() and parse()+stream} x every input up to the bound over {a, b, foreign byte}. Functors log rule, argument count, address/constness/value category of the context and a generation counter kept in the context; the expected call sequence is the reduction sequence of the documented driver on a reference LR(1) table. A second grammar with rules of 0, 1, 3 and 5 right-side symbols, a typed term (whose functor must never see the context) and an error rule runs in 10 assignments under 5 call forms (including verbose and non-default options), the expected sequence coming from the documented driver with recovery.',
- 'C14': 'A grammar with nterm<V>, a typed term producing V, list building, a nullable rule, operator precedence and an error rule; V is instrumented (identity per value, copy/move/destroy counters, live set). Every input up to the bound over the 6 terminals plus a foreign byte is parsed; invariants per execution: no copies, every value destroyed exactly once, each value handed to at most one functor call, no functor sees a moved-from value, nothing alive after the call. A second build with a move-only V (copy constructor deleted) must compile and satisfy the same invariants; a third build uses a copyable V whose move constructor is not noexcept (nothing may fall back to copying).',
+ 'C14': 'A grammar with nterm<V>, a typed term producing V, list building, a nullable rule, operator precedence and an error rule; V is instrumented (identity per value, copy/move/destroy counters, live set). Every input up to the bound over the 6 terminals plus a foreign byte is parsed; invariants per execution: no copies, every value destroyed exactly once, each value handed to at most one functor call, no functor sees a moved-from value, nothing alive after the call. A second build with a move-only V (copy constructor deleted) must compile and satisfy the same invariants; a third build uses a copyable V whose move constructor is not noexcept (nothing may fall back to copying); two more builds attach every functor with >>= and parse through context_parse (values must reach contextual functors as movable rvalues too; one functor takes a value parameter by value).',
 }
 
 def run_prog_check(pid, tier, rep, deadline_s):
@@ -702,6 +708,19 @@ def run_c08(pid, tier, rep, deadline_s):
     rep.coverage = merge_cov(cov, {'states': totals['cases'], 'transitions': totals['checks'], 'traces_validated_against_impl': totals['cases'], 'samples': samples, 'evaluations': totals['cases'], 'distinct_nontrivial': extra.get('recovered', 0) + extra.get('recovery_failed', 0), 'bounds': bounds,
                                    'exhaustive': all(b['completed'] for b in bounds), 'counters': extra, 'rule': 'Compiled part: four ordinary DSL grammars with error rules on every input up to the bound over their terminals, space and a foreign byte; result, value tree and every message (with position) must equal the documented driver + recovery on a reference LR(1) table.'})
 
+def run_c05(pid, tier, rep, deadline_s):
+    q = tier == 'quick'
+    run_gram(pid, tier, rep, deadline_s); cov = dict(rep.coverage)
+    totals, samples, bounds, extra = run_progs(pid, rep, [dict(name='c05d', src='c05_dsl.cpp', args=[6 if q else 8], compilers=['g++'] if q else ['g++', 'clang++'], label='DSL spellings of an explicit rule precedence ([n] before/after >= and >>=, explicit precedences on binary rules, negative value) x inputs<=%d over {2,-,*,space}' % (6 if q else 8))], deadline_s)
+    rep.coverage = merge_cov(cov, {'states': totals['cases'], 'transitions': totals['checks'], 'traces_validated_against_impl': totals['cases'], 'samples': samples, 'evaluations': totals['cases'], 'distinct_nontrivial': extra.get('accepted', 0), 'bounds': bounds,
+                                   'exhaustive': all(b['completed'] for b in bounds), 'rule': 'Compiled part: one operator grammar written with the explicit rule precedence attached before and after a >= functor and before and after a >>= functor (parsed through context_parse), with the prefix rule at three levels, and with explicit precedences (one negative) on the binary rules; the grouping of every input up to the bound must equal that of an independent precedence-climbing parser built from the declared levels.'})
+
+def run_c18(pid, tier, rep, deadline_s):
+    run_gram(pid, tier, rep, deadline_s); cov = dict(rep.coverage)
+    totals, samples, bounds, extra = run_progs(pid, rep, [dict(name='c18l', src='c18_long.cpp', label='custom lexer with 5 terms answering lengths 1..200000 (one-dimensional sweep): slices, positions and match() requests')], deadline_s)
+    rep.coverage = merge_cov(cov, {'states': totals['cases'], 'transitions': totals['checks'], 'traces_validated_against_impl': totals['cases'], 'samples': samples, 'evaluations': totals['cases'], 'distinct_nontrivial': totals['cases'], 'bounds': bounds,
+                                   'exhaustive': all(b['completed'] for b in bounds), 'rule': 'Compiled part (one-dimensional sweep, not exhaustive): a 5-term custom lexer whose answers have lengths 1, 255..257, 65534..65537, 70000, 131071, 131072, 200000 (single-line and multi-line lexemes, up to 70000 statements): every term must reach its functor with exactly the answered slice and its true line/column, and match() must be requested exactly at the term starts with the true source point.'})
+
 def run_c09(pid, tier, rep, deadline_s):
     q = tier == 'quick'
     run_gram(pid, tier, rep, deadline_s); cov = dict(rep.coverage)
@@ -845,6 +864,8 @@ def main(argv):
 def dispatch(pid, tier, rep, deadline):
     if True:
         if pid == 'C08': run_c08(pid, tier, rep, deadline)
+        elif pid == 'C05': run_c05(pid, tier, rep, deadline)
+        elif pid == 'C18': run_c18(pid, tier, rep, deadline)
         elif pid == 'C02': run_c02(pid, tier, rep, deadline)
         elif pid == 'C09': run_c09(pid, tier, rep, deadline)
         elif pid in GRAM_PROPS: run_gram(pid, tier, rep, deadline)
